@@ -446,6 +446,46 @@ def check_c14(tier, seed, wd):
         ctx.calls += 1; ctx.stat('dev_full')
         if rc == 0: ctx.fail('exit0_despite_fault', 'build=%s lz4 -dc small.lz4 > /dev/full -> rc=0' % bk)
         os.unlink(a)
+    # (6b) several files to ONE output stream (-m -c) with --rm: a source may be deleted only if what it contributes really reached the output.
+    #      Output errors that surface late (device full at flush time, the k-th fwrite/fflush/fclose failing) hit after some files were "done".
+    mdir = os.path.join(wd, 'multi'); shutil.rmtree(mdir, ignore_errors=True); os.makedirs(mdir)
+    for sizes in ((300, 900, 2000), (300, 120000, 50)):
+        plain = [gen_content(rng, n, 'text') + bytes([65 + i]) * 40 for i, n in enumerate(sizes)]
+        frames = []
+        for c in plain:
+            rc, out, err = run(B['st'], ['-1', '-c'], stdin=c); frames.append(out)
+        for op in ('d', 'c'):
+            srcs_data = frames if op == 'd' else plain
+            contrib = plain if op == 'd' else frames          # what each source contributes to the common output
+            names = [os.path.join(mdir, 'f%d%s' % (i, '.lz4' if op == 'd' else '.txt')) for i in range(len(sizes))]
+            base = (['-d'] if op == 'd' else ['-1']) + ['-m', '--rm', '-c']
+            variants = [('st', None, None), ('mt', None, None)] + [(bk, fn, k) for bk in ('st_wrap', 'mt_wrap') for fn in ('fwrite', 'fflush', 'fclose') for k in ((1, 2, 3, 4) if ctx.thorough else (1, 2, 3))]
+            for bk, fn, k in variants:
+                for nm, dta in zip(names, srcs_data): write_file(nm, dta)
+                capt = os.path.join(mdir, 'stdout.bin')
+                env = None
+                if fn:
+                    if os.path.exists(flog): os.unlink(flog)
+                    env = dict(os.environ); env.pop('LZ4_NBWORKERS', None); env.update({'VERIF_FAULT': '%s:%d' % (fn, k), 'VERIF_FAULT_LOG': flog})
+                try:
+                    with open('/dev/full' if fn is None else capt, 'wb') as so:
+                        pr = subprocess.run([B[bk]] + base + names, stdout=so, stderr=subprocess.PIPE, timeout=120, env=env); rc = pr.returncode
+                except Exception: rc = 124
+                ctx.calls += 1; ctx.stat('multi_to_stdout_rm')
+                if fn and not os.path.exists(flog):
+                    for nm in names:
+                        if os.path.exists(nm): os.unlink(nm)
+                    continue
+                written = b'' if fn is None else (open(capt, 'rb').read() if os.path.exists(capt) else b'')
+                desc = 'build=%s lz4 %s <%d files of %s bytes> > %s rc=%d' % (bk, ' '.join(base), len(names), list(sizes), '/dev/full' if fn is None else 'file with fault %s:%d' % (fn, k), rc)
+                if fn is None and rc == 0: ctx.fail('exit0_despite_fault', desc)
+                for nm, cb in zip(names, contrib):
+                    if not os.path.exists(nm) and cb not in written:
+                        ctx.fail('source_removed_after_failure', desc + ' : %s was deleted but what it contributes (%d bytes) never reached the output (%d bytes written)' % (os.path.basename(nm), len(cb), len(written))); break
+                if fn: ctx.stat('faults_fired')
+                for nm in names:
+                    if os.path.exists(nm): os.unlink(nm)
+    shutil.rmtree(mdir, ignore_errors=True)
     # (7) exit status with many failing files (-m): 255, 256, 257 files that all fail to decode
     for nfiles in ((255, 256, 257) if ctx.thorough else (256,)):
         d = os.path.join(wd, 'many'); shutil.rmtree(d, ignore_errors=True); os.makedirs(d)
